@@ -7,6 +7,7 @@ mod c01;
 mod c02;
 mod c03;
 mod c05;
+mod c07;
 mod c08;
 mod c10;
 mod c11;
@@ -41,6 +42,8 @@ fn gen(prop: &str, tier: &str, seed: u64, out: &str) {
         "C08" => c08::gen_c08(&mut em, &mut rng),
         "C05" => c05::gen_c05(&mut em, &mut rng),
         "C10" => c10::gen_c10(&mut em, &mut rng),
+        "C07" => c07::gen_c07(&mut em, &mut rng),
+        "C12" => c07::gen_c12(&mut em, &mut rng),
         "C09" => c05::gen_c09(&mut em, &mut rng),
         "C04" => c11::gen_c04(&mut em, &mut rng),
         _ => {
